@@ -54,7 +54,14 @@ def gen_cfg(rnd, k, opts=None):
                 view[(i, j)] = ["%sIF%d" % (P, j)]
             else:
                 view[(i, j)] = ["*%sT%d" % (P, j)]
-    cfg = dict(name="Init" + P, prefix=P, n=n, deps=deps, kinds=kinds, binds=sorted(binds), fall=fall, args=used_args, argdeps=argdeps,
+    # wire.Struct with "*" or with an explicit list of all its fields, in an order of its own
+    sfields = {}
+    for i in range(n):
+        if kinds[i] == "struct" and rnd.random() < 0.6:
+            perm = list(range(sum(len(view[(i, j)]) for j in deps[i])))
+            rnd.shuffle(perm)
+            sfields[i] = perm
+    cfg = dict(name="Init" + P, prefix=P, n=n, deps=deps, kinds=kinds, binds=sorted(binds), fall=fall, args=used_args, argdeps=argdeps, sfields=sfields,
                view={"%d,%d" % k_: v for k_, v in view.items()}, nfields=nfields,
                reterr=any(fall.values()) or rnd.random() < 0.2)
     # only bindings / fields that somebody consumes may be listed (wire refuses unused ones)
@@ -121,7 +128,9 @@ def elements(cfg):
         elif k == "ivalue":
             out.append(("ivalue", i, "wire.InterfaceValue(new(%sIF%d), %sV%d)" % (P, i, P, i)))
         elif k == "struct":
-            out.append(("struct", i, 'wire.Struct(new(%sT%d), "*")' % (P, i)))
+            sf = cfg.get("sfields", {})
+            perm = sf.get(i) if i in sf else sf.get(str(i))
+            out.append(("struct", i, 'wire.Struct(new(%sT%d), %s)' % (P, i, ", ".join('"F%d"' % q for q in perm) if perm else '"*"')))
     return out
 
 
@@ -161,6 +170,11 @@ def make_sets(rnd, cfg):
     extsets = {}
     for j, pk in sorted((int(a), b) for a, b in cfg.get("ext", {}).items()):
         extsets.setdefault(pk, []).append("config.New%sLabel" % cfg["prefix"] if cfg.get("label") == j else "config.New%sT%d" % (cfg["prefix"], j))
+    if len(extsets.get("alpha", [])) >= 2 and rnd.random() < 0.6:
+        # one alpha provider is listed directly in the injector file, which imports alpha/config under a name of its own
+        # (sets_alpha.go imports the same path unaliased): two wire files, one path, two names
+        m = extsets["alpha"].pop(0)
+        top.append("acfg." + m.split(".", 1)[1])
     for pk, members in extsets.items():
         top.append("%sSet%s" % (cfg["prefix"], pk.capitalize()))
     return dict(sets=sets, top=top, extsets=extsets)
@@ -313,6 +327,8 @@ def write_case(mod, name, cfgs):
         injs += i + "\n"
     def hdr(body, tag):
         sink = '\t"vscratch/%s/gamma/sink"\n' % name if "sink." in body else ""
+        if "acfg." in body:
+            sink += '\tacfg "vscratch/%s/alpha/config"\n' % name
         return tag + "package main\n\nimport (\n\t\"github.com/google/wire\"\n%s)\n\nvar _ = wire.NewSet()\n\n" % sink + body
     open(os.path.join(d, "types.go"), "w").write(types)
     open(os.path.join(d, "sets.go"), "w").write(hdr(sets, ""))
